@@ -3,6 +3,37 @@ import Rbgp.Gr.Helper.Spec
 namespace Rbgp.C10
 open Rbgp Rbgp.Term Rbgp.Gr.Helper Rbgp.Gr.Helper.Codec
 
+/-! `bfs` mode (generator support): every reachable state of the model of `GrState` × every input. -/
+
+def subsets : List Nat → List (List Nat)
+  | [] => [[]]
+  | a :: l => let r := subsets l; r ++ r.map (a :: ·)
+
+def pureAlphabet : List GIn :=
+  let sets := subsets [0, 1]
+  let opts : List (Option (List Fam)) := none :: (sets.filter (!·.isEmpty)).map some
+  (opts.flatMap fun g => opts.map fun l => GIn.dropped g l) ++ sets.map GIn.established ++
+  [0, 1, 2].map GIn.eor ++ [GIn.timer] ++ [0, 1, 2].map GIn.llgrTimer
+
+def canonG : GInner → GInner
+  | .idle => .idle
+  | .peerRestarting s l => .peerRestarting (sortN s) (l.map sortN)
+  | .llgrStaling r => .llgrStaling (sortN r)
+  | .peerReconnected p f => .peerReconnected (sortN p) f
+
+partial def bfsLoop (frontier : List (GInner × List GIn)) (seen : List GInner) (acc : List (List GIn)) : List (List GIn) :=
+  match frontier with
+  | [] => acc
+  | (m, path) :: rest =>
+      let succs := pureAlphabet.map fun i => (canonG (gprocess m i).1, path ++ [i])
+      let acc' := acc ++ succs.map (·.2)
+      let (seen', fresh) := succs.foldl (fun (sf : List GInner × List (GInner × List GIn)) s =>
+        if sf.1.contains s.1 then sf else (s.1 :: sf.1, sf.2 ++ [s])) (seen, [])
+      bfsLoop (rest ++ fresh) seen' acc'
+
+def bfsCases : String :=
+  "\n".intercalate ((bfsLoop [(.idle, [])] [.idle] []).map fun p => toStr (tag "pure" (p.map ginT)))
+
 def verdictStr : Spec.Verdict → String
   | .ok => "ok"
   | .fail i c => s!"fail step={i} clause={c}"
@@ -28,6 +59,7 @@ def handler (mode : String) (line : String) : String :=
           | some (.pure _) => if toStr o == "(panic)" then "fail step=0 clause=panic" else "ok"
           | none => "(bad-case)"
       | _ => "(bad-line)"
+  | "bfs" => bfsCases
   | _ => "(bad-mode)"
 
 end Rbgp.C10
